@@ -306,6 +306,9 @@ def jobs(tier):
                 js.append(Job(f"tangent-{what}-n{n}-{'ccw' if ccw else 'cw'}", "c06:tangent", dict(n=n, ccw=ccw, what=what), budget_s=900,
                               max_paths=3000, weight=5 if what == "rotation" else 1))
     js.append(Job("curvature-rotation", "c06:curvature_rotation", {}, budget_s=900, weight=4))
+    # two-point interfaces: the coefficient pair is the *unit* chord for every length (hence for every length unit)
+    for end in ("first", "last"):
+        js.append(Job(f"two-point-unit-chord-{end}", "c02:two_point", dict(fit="dlite", end=end), budget_s=300))
     for what in ("translation", "reflection", "scaling"):
         js.append(Job(f"curvature-{what}", "c04:similarity", dict(what=what), budget_s=900, weight=4))
     for n in ((3, 4) if quick else (3, 4, 5, 6)):
